@@ -18,7 +18,7 @@ RULE = ('reachable topologies (random valid building histories of length 15-45, 
         'link/sub-interface/service interface, disconnect_interface, unpeer), each on a restored copy of the state. One evaluation = '
         'one (state, operation); distinct by (state hash, operation); non-trivial when the predicted deletion set has more than one '
         'element')
-REQUIRED = ['ops:disconnect-through-out-of-date-handle', 'states', 'ops', 'ops:remove_node', 'ops:remove_component', 'ops:remove_network_service', 'ops:disconnect_interface',
+REQUIRED = ['ops:disconnect-through-out-of-date-handle', 'ops:remove-child-through-kept-port-handle', 'states', 'ops', 'ops:remove_node', 'ops:remove_component', 'ops:remove_network_service', 'ops:disconnect_interface',
             'ops:remove_child_interface', 'ops:unpeer', 'ops:remove_link', 'ops:remove_facility', 'ops:remove_switch',
             'ops:service_remove_interface', 'ops:remove_node_service', 'prediction-compared', 'handle-compared',
             'shape:connected-sub-interface', 'shape:link-with-3-ends', 'shape:peered-services', 'shape:connected-interface-removed',
@@ -252,6 +252,14 @@ def check_state(ctx, imp, store, flavour, topo, script):
                 handles['b'] = topogen.get_service(topo, op['b'])
             if op['op'] == 'remove_child_interface':
                 handles['iface'] = topogen.get_iface(topo, op['iface'])
+                # ... or the handle of that port the building history kept (children may have come through other handles since)
+                kept = getattr(topo, '_verif_iface_handles', {}).get('/'.join(map(str, op['iface'])))
+                if kept is not None and kept.node_id == handles['iface'].node_id and op.get('cached') is not False:
+                    remembered = getattr(kept, '_interfaces', None)
+                    if remembered is None or sorted(i.node_id for i in remembered) != sorted(i.node_id for i in handles['iface'].interface_list):
+                        ctx.count('ops:remove-child-through-out-of-date-port-handle')
+                    ctx.count('ops:remove-child-through-kept-port-handle')
+                    handles['iface'] = kept
         except topogen.Unresolved:
             continue
         if op.get('cached') is not False and handles:
